@@ -100,21 +100,25 @@ def mon_no_fault(case, obs, prefix):
 def mon_c04(case, obs, prefix):
     bad = []
     deleted = set()    # ghost: SEIDs whose Deletion Request was accepted and which no establishment has been given since
+    limbo = set()      # SEIDs whose deletion was aborted by a scripted driver panic: outside the rule
     for i, ev, o, prev, prev_dp, dup in walk(case, obs, prefix):
         if ev["t"] == "recv" and not dup and o.get("panicked") and ev["msg"]["k"] == "est":
             deleted.clear()     # an establishment aborted by a panic may have taken a released SEID without ever answering
+        if ev["t"] == "recv" and not dup and o.get("panicked") and ev["msg"]["k"] == "del":
+            limbo.add(ev["msg"]["seid"])    # a deletion aborted half-way by a panic: what the session is afterwards is undefined
         if ev["t"] == "recv" and not dup and not o.get("fault") and not o.get("panicked") and ev["msg"]["k"] in ("mod", "del", "est"):
             sd = o["sends"] or []
             if ev["msg"]["k"] in ("mod", "del") and ev["msg"]["seid"] in deleted:
                 if not any(x["type"] in ("modrsp", "delrsp") and x["cause"] == 65 and x["seid"] == 0 for x in sd):
                     bad.append((i, "SEID %d was released (its Deletion Request was accepted) and has not been issued again, yet a request "
                                    "addressed to it is not answered 'session context not found'" % ev["msg"]["seid"]))
-            if ev["msg"]["k"] == "del" and any(x["type"] == "delrsp" and x["cause"] == 1 for x in sd):
+            if ev["msg"]["k"] == "del" and any(x["type"] == "delrsp" and x["cause"] == 1 for x in sd) and ev["msg"]["seid"] not in limbo:
                 deleted.add(ev["msg"]["seid"])
             if ev["msg"]["k"] == "est":
                 for x in sd:
                     if x["type"] == "estrsp" and x["cause"] == 1:
                         deleted.discard(x["fseid"])
+                        limbo.discard(x["fseid"])
         if o.get("fault"):
             bad.append((i, "fault: " + o["fault"]))
             break
